@@ -85,9 +85,18 @@ impl Hash for OItem {
         item_hash(self.0, self.1, h)
     }
 }
+/// Under an odd ordinary salt the items of the new sequence hash differently from equal items of the old sequence:
+/// the diff algorithms only require `New::Output: PartialEq<Old::Output>`, the hashes of the two types are unrelated.
+/// (Never under salt 0: `IdentifyDistinct` keys ONE map by items of both types and so does need agreeing hashes.)
+pub fn hetero_hash(salt: u32) -> bool {
+    salt % 2 == 1 && salt < STR_HASH
+}
 impl Hash for NItem {
     fn hash<H: Hasher>(&self, h: &mut H) {
-        item_hash(self.0, self.1, h)
+        item_hash(self.0, self.1, h);
+        if hetero_hash(self.1) {
+            0xabu8.hash(h)
+        }
     }
 }
 
